@@ -75,6 +75,17 @@ Theorem C19_entry_points_do_not_write_caller_storage :
   forall l, In l (st_log st') -> (n0 <= l)%nat.
 Proof. exact (fun fd n0 st o st' => entry_points_sound eon_program fd n0 st o st' all_entry_points_ok). Qed.
 
+(* With [accepted_unsafe] empty (every defect once recorded there has been repaired in
+   /repo) the side condition of (1) is vacuous: NO public entry point of the program
+   generated from /repo writes storage that existed before the call, in any execution. *)
+Theorem C19_no_entry_point_writes_caller_storage :
+  forall fd n0 st o st',
+  In fd (entry_points eon_program) ->
+  initial fd n0 st -> exec eon_program (fn_body fd) st o st' ->
+  forall l, In l (st_log st') -> (n0 <= l)%nat.
+Proof. exact (fun fd n0 st o st' Hin => entry_points_sound eon_program fd n0 st o st' all_entry_points_ok Hin eq_refl). Qed.
+Print Assumptions C19_no_entry_point_writes_caller_storage.
+
 Theorem C19_entry_points_write_at_most_recorded_parameters :
   forall fd n0 st o st',
   In fd (entry_points eon_program) ->
